@@ -5,6 +5,9 @@ CONSTANTS
   Thr = 2
   Tol = 2
   Fresh <- GFresh
+  Slow <- GSlow
+  QCap <- GQCap
+  Bursts <- GBursts
   Credits <- GCredits
   Pays <- GPays
   Reserves <- GReserves
